@@ -53,6 +53,26 @@ class Pat:
         p = _parse(pattern, 'stmt' if stmt else 'expr')
         if expand and self.fi is not None and isinstance(node, ast.expr):
             node = self.fi.expand(node)
+        elif expand and self.fi is not None and isinstance(node, (ast.Assign, ast.AugAssign)):
+            # statement: expand the right-hand side and the index expressions of subscripted targets (local aliases such as
+            # `pos = self.model.channel_positions` become transparent); the assigned names themselves are left alone
+            import copy as _copy
+            new = _copy.copy(node)
+            new.value = self.fi.expand(node.value)
+            tg = node.targets if isinstance(node, ast.Assign) else [node.target]
+            ntg = []
+            for t_ in tg:
+                if isinstance(t_, ast.Subscript):
+                    t2 = _copy.copy(t_)
+                    t2.slice = self.fi.expand(t_.slice)
+                    ntg.append(t2)
+                else:
+                    ntg.append(t_)
+            if isinstance(node, ast.Assign):
+                new.targets = ntg
+            else:
+                new.target = ntg[0]
+            node = new
         trial = dict(self.b)
         if self._m(p, node, trial):
             self.b = trial
